@@ -133,18 +133,32 @@ class HangGuard:
         in_wait = any(f.filename.endswith(("multiprocessing/pool.py", "threading.py", "multiprocessing/connection.py")) and
                       f.name in ("wait", "get", "join", "_wait_for_tstate_lock", "poll") for f in stack)
         kids = children_of_self()
-        t0 = _cpu_ticks(kids + [os.getpid()])
+        t0 = _cpu_ticks(kids)
         if self.done.wait(5.0):
             return
-        t1 = _cpu_ticks(kids + [os.getpid()])
-        idle = (t1 - t0) <= 2
+        t1 = _cpu_ticks(kids)
+        workers_idle = (t1 - t0) <= 2
+        # the pool's own plumbing: a dead handler thread can never deliver the awaited result
+        import gc
+        import multiprocessing.pool as mpp
+        handlers_dead, outstanding = [], 0
+        for o in gc.get_objects():
+            try:
+                if isinstance(o, mpp.Pool):
+                    outstanding += len(getattr(o, "_cache", {}) or {})
+                    for name in ("_result_handler", "_task_handler", "_worker_handler"):
+                        th = getattr(o, name, None)
+                        if th is not None and not th.is_alive():
+                            handlers_dead.append(name)
+            except Exception:
+                pass
         ev = dict(stack_tail=["%s:%s" % (os.path.basename(f.filename), f.name) for f in stack[-4:]], blocked_in_pool_wait=in_wait,
-                  live_workers=len(kids), cpu_ticks_in_5s=t1 - t0)
+                  live_workers=len(kids), worker_cpu_ticks_in_5s=t1 - t0, outstanding_results=outstanding, dead_pool_threads=handlers_dead)
         self.res.counters["hang_evidence_" + self.label[:40]] = ev
-        if in_wait and idle:
-            self.res.violation("%s: the call neither returns nor raises: main thread blocked in %s for %ds while its %d worker(s) and "
-                               "threads use no CPU (nothing will ever deliver the result)" % (
-                                   self.label, ev["stack_tail"][-2:], int(self.patience) + 5, len(kids)), self.case)
+        if in_wait and outstanding > 0 and (handlers_dead or workers_idle):
+            self.res.violation("%s: the call neither returns nor raises: after %ds the main thread is blocked in %s waiting for %d result(s) while %s" % (
+                self.label, int(self.patience) + 5, ev["stack_tail"][:2], outstanding,
+                ("the pool's %s thread is dead" % handlers_dead[0]) if handlers_dead else ("its %d worker(s) do no work" % len(kids))), self.case)
         else:
             self.res.inconclusive.append("%s: watchdog fired without the logical evidence of a hang: %s" % (self.label, ev))
         self.res.flush()
